@@ -8,10 +8,14 @@ cd "$W" || exit 2
 git checkout -q -- . ; git clean -fdq -e target
 FEAT=$(python3 -c "import json,sys;print(json.load(open('$D/meta.json')).get('features','') or '')" 2>/dev/null)
 FA=""; [ -n "$FEAT" ] && FA="--features $FEAT"
+# a demo that needs the portable scanner: meta.json "rustflags" (e.g. --cfg miri); the dev-dependencies
+# then need RUSTC_BOOTSTRAP=1 on the stable toolchain; the suite itself runs with the default flags
+RF=$(python3 -c "import json,sys;print(json.load(open('$D/meta.json')).get('rustflags','') or '')" 2>/dev/null)
+demo() { if [ -n "$RF" ]; then RUSTC_BOOTSTRAP=1 RUSTFLAGS="$RF" CARGO_TARGET_DIR=target-portable "$@"; else "$@"; fi; }
 cp "$D/demo.rs" tests/seed_demo.rs
-if CARGO_NET_OFFLINE=true timeout 900 cargo test --offline $FA --test seed_demo >/tmp/seedconfirm.$$.log 2>&1; then echo "demo-without-patch: pass"; A=0; else echo "demo-without-patch: FAIL"; tail -5 /tmp/seedconfirm.$$.log; A=1; fi
+if CARGO_NET_OFFLINE=true demo timeout 900 cargo test --offline $FA --test seed_demo >/tmp/seedconfirm.$$.log 2>&1; then echo "demo-without-patch: pass"; A=0; else echo "demo-without-patch: FAIL"; tail -5 /tmp/seedconfirm.$$.log; A=1; fi
 if git apply "$D/patch.diff"; then echo "patch: applies"; else echo "patch: DOES NOT APPLY"; exit 1; fi
-if CARGO_NET_OFFLINE=true timeout 900 cargo test --offline $FA --test seed_demo >/tmp/seedconfirm.$$.log 2>&1; then echo "demo-with-patch: PASS (not demonstrated)"; B=1; else echo "demo-with-patch: fails (as claimed)"; grep -E "panicked|assert|SIG|signal" /tmp/seedconfirm.$$.log | head -3; B=0; fi
+if CARGO_NET_OFFLINE=true demo timeout 900 cargo test --offline $FA --test seed_demo >/tmp/seedconfirm.$$.log 2>&1; then echo "demo-with-patch: PASS (not demonstrated)"; B=1; else echo "demo-with-patch: fails (as claimed)"; grep -E "panicked|assert|SIG|signal" /tmp/seedconfirm.$$.log | head -3; B=0; fi
 rm -f tests/seed_demo.rs
 if CARGO_NET_OFFLINE=true timeout 1800 cargo test --offline $FA >/tmp/seedconfirm.$$.log 2>&1; then echo "suite-with-patch: passes"; C=0; else echo "suite-with-patch: FAILS"; grep -E "^test .*FAILED|failed" /tmp/seedconfirm.$$.log | head -5; C=1; fi
 git checkout -q -- . ; git clean -fdq -e target
